@@ -101,6 +101,16 @@ func mkCalls(r *gal.Rng, types []twoTag, n int) []hcall {
 				h.exps = []expE{{"C", "map[k]", m + "e"}}
 			}
 			h.kind = "map"
+		case x == 9 && r.Bool(): // a rejected call (typed nil input) that carried a rule set: nothing of it may reach a later call
+			var nilSrc interface{} = (*WLeaf)(nil) // a named type: its name has no clause separator inside
+			h.call = &walkCall{Entry: "struct", Src: nilSrc, HasUnsc: true, Unscoped: map[string]string{"A": fmt.Sprintf("eq=4|M%dstale", i), "B": fmt.Sprintf("ge=99|M%dstaleB", i)}}
+			if r.Bool() {
+				h.call.Src = nil
+				h.exps = []expE{{"F", "", "F:src is nil"}}
+			} else {
+				h.exps = []expE{{"F", "", "F:src \"" + reflect.TypeOf(nilSrc).String() + "\" is nil"}}
+			}
+			h.kind = "struct:nil-src-with-rules"
 		default:
 			m := fmt.Sprintf("M%du", i)
 			val := r.Pick([]string{"", "abc", "13812345678"})
